@@ -476,7 +476,7 @@ let do_c18 t =
       | "plain" -> PlainLdap | "garbage" -> Garbage | "idle" -> ConnectIdle | "abandon" -> AbandonMidway
       | "tls-nocert" -> TlsNoCert | "tls-otherca" | "tls-otherca-chain" -> TlsOtherCA | "tls-goodcert" -> TlsGoodCert
       | k -> failwith ("bad behaviour " ^ k)) in
-  "handler_ran=" ^ b01 (handler_ran std_hs_ok cfg b) ^ " bystanders=11 alive=1"
+  "handler_ran=" ^ b01 (handler_ran std_hs_ok cfg b) ^ " bystanders=111 alive=1"
 
 (* ---------- C17: validateAddrPort with the library's answers as oracle bits ---------- *)
 let do_addrv t =
